@@ -70,96 +70,37 @@ theorem convert_reorder_commute (M : NMat ℝ) (bseto : List Nat) (n : Nat) (lc 
 
 variable {α : Type} [Add α] [Sub α] [Mul α] [Div α] [Neg α] [OfNat α 0] [OfNat α 1] [RbOps α]
 
-/-- the preparation raises exactly for a uset of the wrong size and for `reorder=False` with a `bseto` that is not
-ascending -/
-theorem cbPrepare_cases (n : Nat) (M K : NMat α) (bseto bref0 : List Nat) (usetN : Nat) (u : NMat α)
-    (isCyl isSph : Nat → Bool) (uref : URef α) (o : CbOpts α) (twoPi hundred : α) :
-    (usetN ≠ bseto.length → cbPrepare Memo.id n M K bseto bref0 usetN u isCyl isSph uref o twoPi hundred = .error .usetRows) ∧
-      (usetN = bseto.length → o.reorder = false → isAscending bseto = false →
-        cbPrepare Memo.id n M K bseto bref0 usetN u isCyl isSph uref o twoPi hundred = .error .notAscending) ∧
-      (usetN = bseto.length → (o.reorder = true ∨ isAscending bseto = true) →
-        ∃ out, cbPrepare Memo.id n M K bseto bref0 usetN u isCyl isSph uref o twoPi hundred = .ok out) := by
-  refine ⟨?_, ?_, ?_⟩
-  · intro h
-    unfold cbPrepare
-    simp [h]
-  · intro h hr ha
-    unfold cbPrepare
-    simp [h, hr, ha]
-  · intro h hor
-    unfold cbPrepare
-    rcases hor with hr | ha
-    · simp [h, hr]
-    · simp [h, ha]
-
-theorem cbFinish_cases (e : α) (out : CbOut α) :
-    cbFinish e out = .error .emFiltEmpty ∨
-      (cbFinish e out = .ok out ∧ (RbOps.gt e 0 = false ∨ out.nq = 0 ∨ out.printed ≠ [])) := by
-  unfold cbFinish
-  by_cases hc : (RbOps.gt e 0 && out.nq != 0 && out.printed.isEmpty) = true
-  · left; rw [if_pos hc]
-  · right
-    rw [if_neg hc]
-    refine ⟨rfl, ?_⟩
-    by_cases h1 : RbOps.gt e 0 = false
-    · exact Or.inl h1
-    · by_cases h2 : out.nq = 0
-      · exact Or.inr (Or.inl h2)
-      · right; right
-        intro h3
-        apply hc
-        simp [h3, h2]
-        simpa using h1
-
-/-- ★ when `cbcheck` raises: for a uset of the wrong size, for `reorder=False` with a `bseto` that is not ascending -
-and (the code as it is, a finding) with `IndexError` when a positive `em_filt` leaves no row of the effective-mass
-table; with the default `em_filt = 0` (any filter that is not positive) every other input produces the namespace -/
+/-- ★ `cbcheck` raises exactly for a uset of the wrong size and for `reorder=False` with a `bseto` that is not
+ascending; every other input produces the namespace - whatever `em_filt`, `rb_norm`, `n_freefree_modes` are (since the
+fix 2a88ed1, finding F66, a filter that leaves no mode prints an empty table) -/
 theorem cbcheck_errors (n : Nat) (M K : NMat α) (bseto bref0 : List Nat) (usetN : Nat) (u : NMat α)
     (isCyl isSph : Nat → Bool) (uref : URef α) (o : CbOpts α) (twoPi hundred : α) :
     (usetN ≠ bseto.length → cbcheckM n M K bseto bref0 usetN u isCyl isSph uref o twoPi hundred = .error .usetRows) ∧
       (usetN = bseto.length → o.reorder = false → isAscending bseto = false →
         cbcheckM n M K bseto bref0 usetN u isCyl isSph uref o twoPi hundred = .error .notAscending) ∧
-      (usetN = bseto.length → (o.reorder = true ∨ isAscending bseto = true) → RbOps.gt o.emFilt 0 = false →
+      (usetN = bseto.length → (o.reorder = true ∨ isAscending bseto = true) →
         ∃ out, cbcheckM n M K bseto bref0 usetN u isCyl isSph uref o twoPi hundred = .ok out) := by
-  obtain ⟨h1, h2, h3⟩ := cbPrepare_cases n M K bseto bref0 usetN u isCyl isSph uref o twoPi hundred
   refine ⟨?_, ?_, ?_⟩
   · intro h
     unfold cbcheckM cbcheckWith
-    rw [h1 h]
+    simp [h]
   · intro h hr ha
     unfold cbcheckM cbcheckWith
-    rw [h2 h hr ha]
-  · intro h hor he
-    obtain ⟨out, ho⟩ := h3 h hor
+    simp [h, hr, ha]
+  · intro h hor
     unfold cbcheckM cbcheckWith
-    rw [ho]
-    refine ⟨out, ?_⟩
-    simp [cbFinish, he]
+    rcases hor with hr | ha
+    · simp [h, hr]
+    · simp [h, ha]
 
-/-- ★ the `em_filt` defect of the code as it is: for an accepted input the call either returns - and then the filter is
-not positive, or there are no modal DOF, or some mode is above the filter - or it ends in `IndexError`
-(`writer.vecwrite` is handed an empty table): a positive `em_filt` with modal DOF and no mode above it does not return -/
-theorem cbcheck_emfilt_empty_raises (n : Nat) (M K : NMat α) (bseto bref0 : List Nat) (u : NMat α)
-    (isCyl isSph : Nat → Bool) (uref : URef α) (o : CbOpts α) (twoPi hundred : α)
-    (hor : o.reorder = true ∨ isAscending bseto = true) :
-    cbcheckM n M K bseto bref0 bseto.length u isCyl isSph uref o twoPi hundred = .error .emFiltEmpty ∨
-      ∃ out, cbcheckM n M K bseto bref0 bseto.length u isCyl isSph uref o twoPi hundred = .ok out ∧
-        (RbOps.gt o.emFilt 0 = false ∨ out.nq = 0 ∨ out.printed ≠ []) := by
-  obtain ⟨out0, h0⟩ := (cbPrepare_cases n M K bseto bref0 bseto.length u isCyl isSph uref o twoPi hundred).2.2 rfl hor
-  unfold cbcheckM cbcheckWith
-  rw [h0]
-  rcases cbFinish_cases o.emFilt out0 with h | ⟨h, h'⟩
-  · exact Or.inl h
-  · exact Or.inr ⟨out0, h, h'⟩
-
-/-- ★ what `cbcheck` returns (every field that needs no dense kernel), for an input it accepts (`em_filt` not positive,
-see `cbcheck_errors`): `m`, `k` converted (with the original `bseto`) and then reordered; `bset`; the uset row order;
-`qset = flippv(bset)`; the effective-mass table `(m[q, b] @ rbg)²`, its percent version and the fixed-base frequencies from
-the reordered, converted matrices; the reference DOF inside the b-set by `searchsorted`; `rb_norm=None` resolved by the
-contiguity of those positions. -/
+/-- ★ what `cbcheck` returns (every field that needs no dense kernel), for an input it accepts: `m`, `k` converted
+(with the original `bseto`) and then reordered; `bset`; the uset row order; `qset = flippv(bset)`; the effective-mass
+table `(m[q, b] @ rbg)²`, its percent version and the fixed-base frequencies from the reordered, converted matrices;
+the reference DOF inside the b-set by `searchsorted`; `rb_norm=None` resolved by the contiguity of those positions; the
+printed rows of the effective-mass table by `em_filt`. -/
 theorem cbcheck_returns_def (n : Nat) (M K : NMat α) (bseto bref0 : List Nat) (u : NMat α)
     (isCyl isSph : Nat → Bool) (uref : URef α) (o : CbOpts α) (twoPi hundred : α)
-    (hor : o.reorder = true ∨ isAscending bseto = true) (he : RbOps.gt o.emFilt 0 = false) :
+    (hor : o.reorder = true ∨ isAscending bseto = true) :
     ∃ out, cbcheckM n M K bseto bref0 bseto.length u isCyl isSph uref o twoPi hundred = .ok out ∧
       out.bset = (if o.reorder then List.range bseto.length else bseto) ∧
       out.usetRows = (if o.reorder then usetRank bseto else List.range bseto.length) ∧
@@ -176,19 +117,21 @@ theorem cbcheck_returns_def (n : Nat) (M K : NMat α) (bseto bref0 : List Nat) (
       out.printed = emFiltRows out.nq out.percent o.emFilt := by
   have hchk : (!o.reorder && !isAscending bseto) = false := by
     rcases hor with h | h <;> simp [h]
-  unfold cbcheckM cbcheckWith cbPrepare cbFinish
-  simp only [bne_self_eq_false, Bool.false_eq_true, if_false, hchk, he, Bool.false_and]
+  unfold cbcheckM cbcheckWith
+  simp only [bne_self_eq_false, Bool.false_eq_true, if_false, hchk]
   refine ⟨_, rfl, rfl, rfl, ?_, ?_, rfl, rfl, rfl, rfl, rfl, rfl, rfl, rfl⟩
   · cases o.conv <;> rfl
   · cases o.conv <;> rfl
 
-/-- the preparation does not look at `rb_norm` (except to resolve it), `em_filt` (except for the printed rows) and
-`n_freefree_modes` -/
-theorem cbPrepare_option_independence (n : Nat) (M K : NMat α) (bseto bref0 : List Nat) (usetN : Nat) (u : NMat α)
+/-- ★ option independence: `rb_norm`, `em_filt` and `n_freefree_modes` change nothing of `m`, `k`, `bset`, the uset
+order and values, `rbg`, the effective-mass tables, `cb_frq`, the reference DOF - and not whether the call raises: in
+particular `em_filt` never makes `cbcheck` fail (finding F66, repaired), it only selects the printed rows, `rb_norm`
+acts on `rbs` / `rbe` only, `n_freefree_modes` on the free-free eigensolution only. -/
+theorem cbcheck_option_independence (n : Nat) (M K : NMat α) (bseto bref0 : List Nat) (usetN : Nat) (u : NMat α)
     (isCyl isSph : Nat → Bool) (uref : URef α) (o : CbOpts α) (twoPi hundred : α)
     (rbn : Option Bool) (emf : α) (nff : Nat) :
-    match cbPrepare Memo.id n M K bseto bref0 usetN u isCyl isSph uref o twoPi hundred,
-      cbPrepare Memo.id n M K bseto bref0 usetN u isCyl isSph uref { o with rbNorm := rbn, emFilt := emf, nFreeFree := nff }
+    match cbcheckM n M K bseto bref0 usetN u isCyl isSph uref o twoPi hundred,
+      cbcheckM n M K bseto bref0 usetN u isCyl isSph uref { o with rbNorm := rbn, emFilt := emf, nFreeFree := nff }
         twoPi hundred with
     | .ok a, .ok b => a.m = b.m ∧ a.k = b.k ∧ a.bset = b.bset ∧ a.usetRows = b.usetRows ∧ a.u = b.u ∧
         a.uref = b.uref ∧ a.rbg = b.rbg ∧ a.nq = b.nq ∧ a.qset = b.qset ∧ a.effmass = b.effmass ∧
@@ -196,7 +139,7 @@ theorem cbPrepare_option_independence (n : Nat) (M K : NMat α) (bseto bref0 : L
         (emf = o.emFilt → a.printed = b.printed) ∧ (rbn = o.rbNorm → a.rbNorm = b.rbNorm)
     | .error e, .error e' => e = e'
     | _, _ => False := by
-  unfold cbPrepare
+  unfold cbcheckM cbcheckWith
   by_cases h1 : (usetN != bseto.length) = true
   · simp [h1]
   · by_cases h2 : (!o.reorder && !isAscending bseto) = true
@@ -204,88 +147,6 @@ theorem cbPrepare_option_independence (n : Nat) (M K : NMat α) (bseto bref0 : L
     · simp only [h1, h2, Bool.false_eq_true, if_false]
       repeat' constructor
       all_goals first | rfl | (intro h; rw [h])
-
-theorem cbFinish_ok (e : α) (x y : CbOut α) (h : cbFinish e x = .ok y) : y = x := by
-  unfold cbFinish at h
-  split at h
-  · cases h
-  · cases h; rfl
-
-/-- ★ option independence: `rb_norm` and `n_freefree_modes` change nothing of `m`, `k`, `bset`, the uset order and
-values, `rbg`, the effective-mass tables, `cb_frq`, the reference DOF, the printed rows - and not whether the call raises.
-(`rb_norm` acts on `rbs` / `rbe` only, `n_freefree_modes` on the free-free eigensolution.) -/
-theorem cbcheck_option_independence (n : Nat) (M K : NMat α) (bseto bref0 : List Nat) (usetN : Nat) (u : NMat α)
-    (isCyl isSph : Nat → Bool) (uref : URef α) (o : CbOpts α) (twoPi hundred : α)
-    (rbn : Option Bool) (nff : Nat) :
-    match cbcheckM n M K bseto bref0 usetN u isCyl isSph uref o twoPi hundred,
-      cbcheckM n M K bseto bref0 usetN u isCyl isSph uref { o with rbNorm := rbn, nFreeFree := nff }
-        twoPi hundred with
-    | .ok a, .ok b => a.m = b.m ∧ a.k = b.k ∧ a.bset = b.bset ∧ a.usetRows = b.usetRows ∧ a.u = b.u ∧
-        a.uref = b.uref ∧ a.rbg = b.rbg ∧ a.nq = b.nq ∧ a.qset = b.qset ∧ a.effmass = b.effmass ∧
-        a.percent = b.percent ∧ a.frq = b.frq ∧ a.bref = b.bref ∧ a.brefB = b.brefB ∧ a.printed = b.printed
-    | .error e, .error e' => e = e'
-    | _, _ => False := by
-  have hp := cbPrepare_option_independence n M K bseto bref0 usetN u isCyl isSph uref o twoPi hundred rbn o.emFilt nff
-  unfold cbcheckM cbcheckWith
-  cases h1 : cbPrepare Memo.id n M K bseto bref0 usetN u isCyl isSph uref o twoPi hundred with
-  | error e =>
-    cases h2 : cbPrepare Memo.id n M K bseto bref0 usetN u isCyl isSph uref
-        { o with rbNorm := rbn, emFilt := o.emFilt, nFreeFree := nff } twoPi hundred with
-    | error e' =>
-      rw [h1, h2] at hp
-      simpa using hp
-    | ok b => rw [h1, h2] at hp; exact hp.elim
-  | ok a =>
-    cases h2 : cbPrepare Memo.id n M K bseto bref0 usetN u isCyl isSph uref
-        { o with rbNorm := rbn, emFilt := o.emFilt, nFreeFree := nff } twoPi hundred with
-    | error e' => rw [h1, h2] at hp; exact hp.elim
-    | ok b =>
-      rw [h1, h2] at hp
-      obtain ⟨e1, e2, e3, e4, e5, e6, e7, e8, e9, e10, e11, e12, e13, e14, e15, _⟩ := hp
-      have e15' : a.printed = b.printed := e15 rfl
-      show (match cbFinish o.emFilt a, cbFinish o.emFilt b with
-        | .ok a, .ok b => a.m = b.m ∧ a.k = b.k ∧ a.bset = b.bset ∧ a.usetRows = b.usetRows ∧ a.u = b.u ∧
-            a.uref = b.uref ∧ a.rbg = b.rbg ∧ a.nq = b.nq ∧ a.qset = b.qset ∧ a.effmass = b.effmass ∧
-            a.percent = b.percent ∧ a.frq = b.frq ∧ a.bref = b.bref ∧ a.brefB = b.brefB ∧ a.printed = b.printed
-        | .error e, .error e' => e = e'
-        | _, _ => False)
-      by_cases hc : (RbOps.gt o.emFilt 0 && a.nq != 0 && a.printed.isEmpty) = true
-      · have hca : cbFinish o.emFilt a = .error .emFiltEmpty := by unfold cbFinish; rw [if_pos hc]
-        have hcb : cbFinish o.emFilt b = .error .emFiltEmpty := by
-          unfold cbFinish; rw [if_pos (by rw [← e8, ← e15']; exact hc)]
-        rw [hca, hcb]
-      · have hca : cbFinish o.emFilt a = .ok a := by unfold cbFinish; rw [if_neg hc]
-        have hcb : cbFinish o.emFilt b = .ok b := by
-          unfold cbFinish; rw [if_neg (by rw [← e8, ← e15']; exact hc)]
-        rw [hca, hcb]
-        exact ⟨e1, e2, e3, e4, e5, e6, e7, e8, e9, e10, e11, e12, e13, e14, e15'⟩
-
-/-- ★ `em_filt` only selects the PRINTED rows: two calls that differ in `em_filt` alone and both return agree on every
-other field (the filter decides `printed` - and, the defect above, whether an empty table is handed to the writer) -/
-theorem cbcheck_emfilt_independence (n : Nat) (M K : NMat α) (bseto bref0 : List Nat) (usetN : Nat) (u : NMat α)
-    (isCyl isSph : Nat → Bool) (uref : URef α) (o : CbOpts α) (twoPi hundred : α) (emf : α) (a b : CbOut α)
-    (ha : cbcheckM n M K bseto bref0 usetN u isCyl isSph uref o twoPi hundred = .ok a)
-    (hb : cbcheckM n M K bseto bref0 usetN u isCyl isSph uref { o with emFilt := emf } twoPi hundred = .ok b) :
-    a.m = b.m ∧ a.k = b.k ∧ a.bset = b.bset ∧ a.usetRows = b.usetRows ∧ a.u = b.u ∧ a.uref = b.uref ∧ a.rbg = b.rbg ∧
-      a.nq = b.nq ∧ a.qset = b.qset ∧ a.effmass = b.effmass ∧ a.percent = b.percent ∧ a.frq = b.frq ∧ a.bref = b.bref ∧
-      a.brefB = b.brefB ∧ a.rbNorm = b.rbNorm := by
-  have hp := cbPrepare_option_independence n M K bseto bref0 usetN u isCyl isSph uref o twoPi hundred o.rbNorm emf o.nFreeFree
-  unfold cbcheckM cbcheckWith at ha hb
-  cases h1 : cbPrepare Memo.id n M K bseto bref0 usetN u isCyl isSph uref o twoPi hundred with
-  | error e => rw [h1] at ha; cases ha
-  | ok a0 =>
-    cases h2 : cbPrepare Memo.id n M K bseto bref0 usetN u isCyl isSph uref
-        { o with rbNorm := o.rbNorm, emFilt := emf, nFreeFree := o.nFreeFree } twoPi hundred with
-    | error e => rw [h2] at hb; cases hb
-    | ok b0 =>
-      rw [h1] at ha
-      rw [h2] at hb
-      rw [h1, h2] at hp
-      have ea := cbFinish_ok _ _ _ ha
-      have eb := cbFinish_ok _ _ _ hb
-      subst ea eb
-      obtain ⟨e1, e2, e3, e4, e5, e6, e7, e8, e9, e10, e11, e12, e13, e14, _, e16⟩ := hp
-      exact ⟨e1, e2, e3, e4, e5, e6, e7, e8, e9, e10, e11, e12, e13, e14, e16 rfl⟩
 
 /-- the `nq = 0` branch (fix 54d5d6d): with no modal DOF the tables have no rows and nothing is printed -/
 theorem cbcheck_no_modal_dof (nq : Nat) (percent : NMat α) (emf : α) (h : nq = 0) : emFiltRows nq percent emf = [] := by
